@@ -20,7 +20,7 @@ CONSTANTS
   Exclusive = FALSE
   MinClasses = 0
   MinNodes = 0
-  CodeDevs <- AllDevs
+  CodeDevs <- CurrentDevs
 INVARIANT TypeOK
 INVARIANT RoundTripExact
 INVARIANT RoundTripPrinted
